@@ -15,6 +15,9 @@ def dispatch (req : Sexp) : Except String Sexp :=
     | "quad_loop" => Driver.handleQuadLoop args
     | "wrap_loop" => Driver.handleWrapLoop args
     | "gen_expr_block" => Driver.handleGenExprBlock args
+    | "prefix_wf" => Driver.handlePrefixWf args
+    | "gen_access" => Driver.handleGenAccess args
+    | "gen_definition" => Driver.handleGenDefinition args
     | "ssa_ok" => Driver.handleSsaOk args
     | "gen_partition" => Driver.handleGenPartition args
     | "loop_wf" => Driver.handleLoopWf args
